@@ -479,6 +479,31 @@ func replayLegacy(line []byte, a *Acc) {
 				break
 			}
 		}
+		// sub-key arguments are the core's: read under the CURRENT field separator, which the wrappers must not second-guess
+		for _, sep := range []string{"|", "::"} {
+			mxj.SetFieldSeparator(sep)
+			for _, k := range l.Ks {
+				sk := "b" + sep + "x"
+				cv, ce := xm.ValuesForKey(k.Key, sk)
+				xv, e := x2j.XmlValuesForTag(xdoc, k.Key, sk)
+				eq("x2j.XmlValuesForTag("+k.Key+", "+sk+") under separator "+sep, bag(xv)+cls(e), bag(cv)+cls(ce))
+			}
+			if len(l.Ps) > 0 {
+				pth := l.Ps[len(l.Ps)/2].P
+				sk := "a" + sep + "x"
+				cv, ce := xm.ValuesForPath(pth, sk)
+				xv, e := x2j.XmlValuesForPath(xdoc, pth, sk)
+				eq("x2j.XmlValuesForPath("+pth+", "+sk+") under separator "+sep, bag(xv)+cls(e), bag(cv)+cls(ce))
+				c, _ := mxj.NewMapXml(xdoc)
+				_, ce2 := c.UpdateValuesForPath("a"+sep+"N", pth, sk)
+				cx, _ := c.Xml()
+				got, e2 := x2j.XmlUpdateValsForPath(xdoc, "a"+sep+"N", pth, sk)
+				if ce2 == nil {
+					eq("x2j.XmlUpdateValsForPath under separator "+sep, string(got)+cls(e2), string(cx)+"ok")
+				}
+			}
+		}
+		mxj.SetFieldSeparator()
 		called("XmlNewXml")
 		called("XmlNewJson")
 		{
